@@ -1219,7 +1219,7 @@ class Store:
             for child, inner_value in value.items():
                 if child not in self.inner:
                     if self.subschema:
-                        self.inner[child] = Store(self.subschema, self)
+                        self._add_subschema_child(child)
                     else:
                         pass
                         # TODO: continue to ignore extra keys?
@@ -1228,6 +1228,19 @@ class Store:
                     self.inner[child].set_value(inner_value)
         else:
             self.value = value
+
+    def _add_subschema_child(self, child):
+        '''Create the child ``child`` that a value names, from the
+        sub-schema - wired through the sub-topology, if there is one,
+        like a child that is added by an update.'''
+        if self.subtopology:
+            self.inner[child] = Store({}, outer=self)
+            self.inner[child]._topology_ports(
+                self.subschema,
+                self.subtopology,
+                source=self.path_for() + ('*',))
+        else:
+            self.inner[child] = Store(self.subschema, self)
 
     def generate_value(self, value):
         """
@@ -1242,7 +1255,7 @@ class Store:
             for child, inner_value in value.items():
                 if child not in self.inner:
                     if self.subschema:
-                        self.inner[child] = Store(self.subschema, self)
+                        self._add_subschema_child(child)
                     else:
                         self._establish_path((child,), {})
 
